@@ -139,6 +139,24 @@ fn db_script(script: &str) -> String {
 
 fn run(op: &str, args: &[String]) -> String {
     match op {
+        "tags_from_parts_long" => {
+            // one tag ["t", "x"*n]
+            let n: usize = args[0].parse().unwrap();
+            let v = "x".repeat(n);
+            match pocket_types::OwnedTags::new(&[vec!["t", &v]]) {
+                Ok(t) => { let got = t.get_string(0, 1).map(|s| s.len()); format!("{{\"outcome\":\"ok\",\"bytes_len\":{},\"string_len_read_back\":{:?}}}", t.as_bytes().len(), got) }
+                Err(e) => format!("{{\"outcome\":\"err\",\"error\":{}}}", jstr(&format!("{}", e.inner))),
+            }
+        }
+        "filter_from_parts_many_ids" => {
+            let n: usize = args[0].parse().unwrap();
+            let ids: Vec<Id> = (0..n).map(|i| { let mut a = [0u8; 32]; a[0] = (i & 255) as u8; a[1] = ((i >> 8) & 255) as u8; a[2] = (i >> 16) as u8; Id::from_bytes(a) }).collect();
+            let tags = pocket_types::OwnedTags::empty();
+            match pocket_types::OwnedFilter::new(&ids, &[], &[], &tags, None, None, None) {
+                Ok(f) => format!("{{\"outcome\":\"ok\",\"num_ids\":{},\"given\":{}}}", f.num_ids(), n),
+                Err(e) => format!("{{\"outcome\":\"err\",\"error\":{}}}", jstr(&format!("{}", e.inner))),
+            }
+        }
         "db_script" => {
             let s = if let Some(p) = args[0].strip_prefix('@') { std::fs::read_to_string(p).unwrap() } else { args[0].clone() };
             db_script(&s)
